@@ -719,3 +719,38 @@ pub proof fn lemma_lines_limited_too_long(s: Seq<u8>, acc: nat, max: nat, n: nat
         p
     }
 }
+
+/// Sanity checks of the spec itself on the inputs named in DESIGN §4 C11 (`d1` = indexed static 17, `:method GET`).
+pub proof fn lemma_spec_examples(max: nat)
+    ensures
+        spec_section_prefix(seq![0x00u8, 0x00u8, 0xd1u8]) == Some(2nat),
+        spec_section_prefix(seq![0x00u8, 0x05u8, 0xd1u8]) == Some(2nat),     // S = 0, Delta Base 5: valid (any Base without references)
+        spec_field_section(seq![0x05u8, 0x00u8, 0xd1u8], max) is Invalid,     // Required Insert Count != 0
+        spec_field_section(seq![0x00u8, 0x80u8, 0xd1u8], max) is Invalid,     // S = 1 with Required Insert Count 0: negative Base
+        spec_repr(seq![0xd1u8]) == Some((SpecRepr::Indexed { is_static: true, index: 17 }, 1nat)),
+        spec_field_line(seq![0x91u8]) is None,                                // indexed, T = 0: dynamic table
+        spec_field_line(seq![0x10u8]) is None,                                // post-base index
+        spec_field_line(seq![0xffu8, 0x24u8]) is None,                        // static index 63 + 36 = 99: out of range
+        spec_field_line(seq![0xffu8]) is None,                                // truncated integer
+{
+    reveal(spec_prefix_int_dec);
+    reveal(spec_repr);
+    reveal(spec_field_line);
+    assert(p2(8) == 256 && p2(7) == 128 && p2(6) == 64);
+    let a = seq![0x00u8, 0x00u8, 0xd1u8];
+    assert(a[0] == 0 && a.skip(1)[0] == 0);
+    let b = seq![0x00u8, 0x05u8, 0xd1u8];
+    assert(b[0] == 0 && b.skip(1)[0] == 5);
+    let c = seq![0x05u8, 0x00u8, 0xd1u8];
+    assert(c[0] == 5);
+    let d = seq![0x00u8, 0x80u8, 0xd1u8];
+    assert(d[0] == 0 && d.skip(1)[0] == 0x80);
+    assert(seq![0xd1u8][0] == 0xd1);
+    assert(seq![0x91u8][0] == 0x91);
+    assert(seq![0x10u8][0] == 0x10);
+    let e = seq![0xffu8, 0x24u8];
+    assert(e[0] == 0xff && e.skip(1)[0] == 0x24 && e.skip(1).len() == 1);
+    axiom_static(99);
+    let f = seq![0xffu8];
+    assert(f[0] == 0xff && f.skip(1).len() == 0);
+}
